@@ -9,8 +9,8 @@ contains two of the three potential qubits of an adjacent triangle, and the sele
 triangle loop (number of keys, magnetic / electric boundary bands, `em_edge`, `constant_z`) is shown
 to keep a two-key triangle only where both cubes that would see a single key of it are absent —
 whose logical pair (the sheet `z = 4` of X, the line `(2Lx−1, 2Ly−2, ·)` of Z) commutes with the
-generators and anticommutes with each other; `n` in closed form, `k = 1`; `get_deformation` follows
-the stated rule.
+generators and anticommutes with each other; `n` and `n_stabilizers` in closed form, `k = 1`;
+`get_deformation` follows the stated rule.
 
 RANK CLAUSE.  The GF(2) rank of the generators is `n − k` for most sizes of the family but NOT for all
 (recorded known finding).  `Deficient Lx Ly Lz` — the hole is one layer of edges thin in one direction
